@@ -44,6 +44,18 @@ using ::babylon::DepositBox;
 using ::babylon::IdAllocator;
 using ::babylon::VersionedValue;
 
+// like vf::pin_cpus(k) but on a seeded window of CPUs (every harness of every check pinning to CPUs 0..k-1 makes
+// oversubscribed episodes of concurrently running checks pile up on the same cores)
+inline void pin_window(int k, uint64_t salt) {
+  int ncpu = int(sysconf(_SC_NPROCESSORS_ONLN));
+  if (k <= 0 || k >= ncpu) { vf::pin_cpus(0); return; }
+  cpu_set_t set;
+  CPU_ZERO(&set);
+  int first = int(salt % uint64_t(ncpu));
+  for (int i = 0; i < k; ++i) CPU_SET((first + i) % ncpu, &set);
+  sched_setaffinity(0, sizeof set, &set);
+}
+
 inline void spin_wait_hint(uint32_t& spins) {
   if (++spins < 1500) {
     _mm_pause();
@@ -234,7 +246,7 @@ bool ida_quiescent_check(IdaWorld<T>& w, const char* when) {
 
 // solo phase in the calling thread against the model free set
 template <typename T>
-bool ida_solo(IdaWorld<T>& w, vf::Rng& r, uint32_t ops, size_t max_pool) {
+bool ida_solo(IdaWorld<T>& w, vf::Rng& r, uint32_t ops, size_t max_pool, uint64_t alloc_bias_of_4 = 2, bool keep_all = false) {
   ::std::vector<VersionedValue<T>> pool;
   for (auto& h : w.holding) { for (auto& id : h) pool.push_back(id); h.clear(); }
   // the pool ids are owned by the main thread now: move the shadow over (everything is joined, no concurrency)
@@ -248,7 +260,7 @@ bool ida_solo(IdaWorld<T>& w, vf::Rng& r, uint32_t ops, size_t max_pool) {
   uint64_t end = w.alloc.end();
   for (uint64_t v = 0; v < end; ++v) if (!held.count(v)) free_set.insert(v);
   for (uint32_t i = 0; i < ops && !vf::failed(); ++i) {
-    bool do_alloc = pool.empty() || (pool.size() < max_pool && r.chance(1, 2));
+    bool do_alloc = pool.empty() || (pool.size() < max_pool && r.chance(alloc_bias_of_4, 4));
     if (do_alloc) {
       uint64_t end_before = w.alloc.end();
       auto id = w.alloc.allocate();
@@ -308,7 +320,7 @@ bool ida_solo(IdaWorld<T>& w, vf::Rng& r, uint32_t ops, size_t max_pool) {
   for (size_t i = 0; i < pool.size(); ++i) {
     auto id = pool[i];
     size_t t = i % T_;
-    if (int(w.holding[t].size()) < w.cfg.max_hold && i < T_ * size_t(w.cfg.max_hold)) {
+    if (keep_all || (int(w.holding[t].size()) < w.cfg.max_hold && i < T_ * size_t(w.cfg.max_hold))) {
       g_cells[id.value].held.store(uint32_t(t) + 1, ::std::memory_order_relaxed);
       g_cells[id.value].tag = tag_of(int(t), id.value, id.version);
       w.holding[t].push_back(id);
@@ -335,8 +347,8 @@ void ida_episode_t(IdaCfg cfg, vf::Rng& r, uint64_t ep_seed) {
     // sequential sub-mode: many ids, for_each across blocks
     VF_COUNT("obs:ida_sequential_episodes");
     for (int ph = 0; ph < cfg.phases && ok && !vf::failed(); ++ph) {
-      ok = ida_solo(w, r, cfg.ops, size_t(r.range(100, 700))) && ida_quiescent_check(w, "sequential");
-      // keep everything in holding[0] regardless of max_hold for the next round
+      // ramp up to hundreds of live ids, then down again (for_each over several 128-value blocks with holes)
+      ok = ida_solo(w, r, cfg.ops, size_t(r.range(100, 700)), ph % 2 == 0 ? 3 : 1, true) && ida_quiescent_check(w, "sequential");
     }
   } else {
     for (int ph = 0; ph < cfg.phases && ok && !vf::failed(); ++ph) {
@@ -380,12 +392,12 @@ void ida_episode(uint64_t seed, uint64_t index) {
   cfg.threads = x == 0 ? 1 : (x < 9 ? int(r.range(2, 4)) : (x < 14 ? int(r.range(5, 12)) : int(r.range(13, 32))));
   cfg.max_hold = int(r.range(1, 3));
   cfg.phases = int(r.range(2, 4));
-  uint32_t base = VF_TSAN ? 500 : (VF_ASAN ? 1200 : 2500);
+  uint32_t base = VF_TSAN ? 250 : (VF_ASAN ? 1000 : 2500);
   cfg.ops = cfg.threads == 1 ? uint32_t(r.range(300, 2500)) : uint32_t(r.range(base / 4, base)) * (cfg.threads > 12 ? 1 : 2) / 2;
   cfg.pin = int(r.pick<int>({0, 0, 0, 1, 2, 3}));
   cfg.policy = vf::draw_policy(r, kIdaPoints, 60, 3000);
   vf::watchdog().set_context(cfg.describe());
-  vf::pin_cpus(cfg.pin);
+  pin_window(cfg.pin, vf::mix(seed, index));
   uint64_t ep_seed = vf::mix(seed, index, 0xe14);
   if (cfg.bits == 16) ida_episode_t<uint16_t>(cfg, r, ep_seed);
   else ida_episode_t<uint32_t>(cfg, r, ep_seed);
@@ -650,7 +662,7 @@ void tid_episode(uint64_t seed, uint64_t index) {
   cfg.pin = int(r.pick<int>({0, 0, 0, 2, 3}));
   cfg.policy = vf::draw_policy(r, kTidPoints, 30, 3000);
   vf::watchdog().set_context(cfg.describe());
-  vf::pin_cpus(cfg.pin);
+  pin_window(cfg.pin, vf::mix(seed, index));
   TidModel& model = g_tid_models[which];
   if (!model.held) model.held = new ::std::atomic<uint32_t>[65536]();
   uint64_t ep_seed = vf::mix(seed, index, 0xe15);
@@ -868,14 +880,14 @@ void dbox_episode(uint64_t seed, uint64_t index) {
   int max_takers = ::std::min(8, 16 / cfg.lanes - 1);
   cfg.takers = ::std::min(max_takers, int(r.pick<int>({2, 2, 3, 3, 4, 6, 8})));
   cfg.window = int(r.pick<int>({1, 1, 2, 4}));
-  uint32_t base = VF_TSAN ? 500 : (VF_ASAN ? 1000 : 2000);
+  uint32_t base = VF_TSAN ? 300 : (VF_ASAN ? 1000 : 2000);
   // a few long episodes: > 10^4 rounds through 1-4 slots, so the oldest stale ids are retried after ~10^4 reuses
   cfg.rounds = r.chance(1, 16) ? ((VF_TSAN || VF_ASAN) ? base * 4 : 10500) : uint32_t(r.range(base / 8, base));
   cfg.singleton = r.chance(1, 6);
   cfg.pin = int(r.pick<int>({0, 0, 0, 0, 2, 3}));
   cfg.policy = vf::draw_policy(r, kDboxPoints, 200, 2000);
   vf::watchdog().set_context(cfg.describe());
-  vf::pin_cpus(cfg.pin);
+  pin_window(cfg.pin, vf::mix(seed, index));
   DboxWorld w;
   w.cfg = cfg;
   w.box = cfg.singleton ? &Box::instance() : new Box;
